@@ -63,7 +63,7 @@ def gen(rng, tier):
                   ghost_trans=None, ghost_final=None, ghost_start=None, eps_string_edge=None, extra_states=[])
     if rng.chance(0.1) and rules:
         rules.append(list(rng.pick(rules)))          # the same rule listed twice
-    int_idx = rng.chance(0.25)                       # index symbols that are ints, not strings
+    int_idx = rng.pick([True, True, "all"]) if rng.chance(0.3) else False      # index symbols (and, for "all", every symbol) as ints
     start = "S" if rng.chance(0.8) else rng.pick(nts)
     return {"rules": rules, "start": start, "int_idx": int_idx, "perm_seed": rng.getrandbits(30), "nperm": 12 if tier == "quick" else 60,
             "fa": GF.fix_kind(fa), "with_intersection": rng.chance(0.5) and len(rules) <= 6}
@@ -88,7 +88,12 @@ def shrink(case):
 IDX_INT = {"f": 1, "g": 2}
 
 
+NT_INT = {"S": 10, "A": 11, "T": 12, "B": 13}
+TERM_INT = {"a": 0, "b": 1}
+
+
 def mk(r, int_idx=False):
+    """int_idx: True = int index symbols; "all" = int index symbols, int non-terminals and int terminals (0 / 1)"""
     from pyformlang.indexed_grammar import EndRule, ProductionRule, ConsumptionRule, DuplicationRule
     args = list(r[1:])
     if int_idx:
@@ -96,6 +101,16 @@ def mk(r, int_idx=False):
             args[2] = IDX_INT[args[2]]
         elif r[0] == "C":
             args[0] = IDX_INT[args[0]]
+    if int_idx == "all":
+        nt = lambda x: NT_INT.get(x, x)
+        if r[0] == "E":
+            args = [nt(args[0]), TERM_INT.get(args[1], args[1])]
+        elif r[0] == "P":
+            args = [nt(args[0]), nt(args[1]), args[2]]
+        elif r[0] == "C":
+            args = [args[0], nt(args[1]), nt(args[2])]
+        else:
+            args = [nt(x) for x in args]
     return {"E": EndRule, "P": ProductionRule, "C": ConsumptionRule, "D": DuplicationRule}[r[0]](*args)
 
 
@@ -117,6 +132,9 @@ def run(case, out):
     from pyformlang.indexed_grammar import IndexedGrammar, Rules
     start = case.get("start", "S")
     ref = M.Ig(case["rules"], start=start)
+    lib_start = NT_INT.get(start, start) if case.get("int_idx") == "all" else start
+    if case.get("int_idx") == "all":
+        out.probe("all_symbols_are_ints")
     want = ref.is_empty()
     if start != "S":
         out.probe("start_variable_is_not_S")
@@ -145,7 +163,7 @@ def run(case, out):
             _random.seed(case["perm_seed"] + pi)      # seam S2: optim=8 shuffles with the global generator
 
             def build():
-                return IndexedGrammar(Rules([mk(r, case.get("int_idx")) for r in rl], optim), start)
+                return IndexedGrammar(Rules([mk(r, case.get("int_idx")) for r in rl], optim), lib_start)
             ig = out.call("IndexedGrammar(optim=%d)" % optim, build)
             if ig is FAILED:
                 break
@@ -170,16 +188,17 @@ def run(case, out):
                         out.fail("remove_useless_rules:verdict-changed", optim=optim, want=want, rules=rl)
                         break
     if case.get("with_intersection"):
-        nfa = GF.ref_of(case["fa"])
-        wanti = M.product_is_empty(ref, nfa, start)
+        fa_case = dict(case["fa"], symmode="cfg:binint") if case.get("int_idx") == "all" else case["fa"]
+        nfa = GF.ref_of(fa_case)
+        wanti = M.product_is_empty(ref, nfa, start, tkey=lambda t: GF.ykey(fa_case, t))
         out.probe("intersection_empty" if wanti else "intersection_non_empty")
         for optim in (7, 0, 3):
             _random.seed(case["perm_seed"])
             ig = out.call("IndexedGrammar(optim=%d)" % optim, lambda: IndexedGrammar(
-                Rules([mk(r, case.get("int_idx")) for r in case["rules"]], optim), start))
+                Rules([mk(r, case.get("int_idx")) for r in case["rules"]], optim), lib_start))
             if ig is FAILED:
                 break
-            res = out.call("intersection", ig.intersection, GF.build(case["fa"]))
+            res = out.call("intersection", ig.intersection, GF.build(fa_case))
             if res is FAILED:
                 break
             # emptiness of the product is exponential in general: a slow answer is inconclusive, not a verdict
